@@ -310,6 +310,12 @@ func (e *Environment) TriggerNoCache() {
 	e.getMiss++
 }
 
+// PropagateMiss records that a function called from this environment was not cacheable
+// (it read or wrote outer state), so the calling function is not cacheable either.
+func (e *Environment) PropagateMiss() {
+	e.getMiss++
+}
+
 // GetMisses returns the cumulative number of get misses (a function tried to access up stack, so can't be cached).
 func (e *Environment) GetMisses() int64 {
 	return e.getMiss
